@@ -201,6 +201,11 @@ def generate(ctx):
         n = rng.randint(1, 12)
         c = G.gen_topology(rng, n, rng.choice(G.GRAPH_CLASSES))
         yield {"kind": "text", "data": c["data"], "cls": "gen-topology"}
+    # one file well beyond 1 MiB (a polymer of 24000 beads): buffer sizes, size hints, "large file" special cases
+    # (seed C16-8: `readlines(1 << 20)` — a size HINT — silently drops everything after the first MiB).  Oracle only.
+    for n in ([24000] if ctx.quick() else [11000, 24000, 50000]):
+        c = G.gen_topology(rng, n, "chain", noise=0.02)
+        yield {"kind": "text", "data": c["data"], "cls": "gen-huge"}
     # malformed typed lines: model and code must raise the same class
     bad_lines = {
         "atoms": ["x C 1 MOL C1 1", "1 C y MOL C1 1", "1 C 1 MOL C1", "1 C 1 MOL C1 z", "1 C 1 MOL C1 1 q",
@@ -325,6 +330,9 @@ def evaluate(ctx, case):
         top_a, rest = parse_top(rest)
         if top_a != canon_top(obs["topA"]):
             dis("read_topology(f)", canon_top(obs["topA"]), top_a)
+    if len(data) > 700000:
+        ctx.count("model:not-asked-for-a-file-beyond-700kB (oracle only)")
+        return
     ctx.model.ask("itp_rt", hexs(data), cb, case)
 
 
